@@ -1,0 +1,98 @@
+//go:build verif
+
+// Contracts for package config, read by /verif/govc.
+//
+// Precedence per setting: environment variable if set and non-empty, else the
+// configuration file if the setting is present there, else the documented
+// default; a malformed numeric or duration value is an error.
+package config
+
+//@ pure func envOn(k string) bool = envSet(k) && envVal(k) != ""
+
+// The documented defaults (config.go doc comments, config.yaml).
+//@ pure func defaultsHold() bool =
+//@     defaultConfig.Port == 8888 &&
+//@     defaultConfig.Storage.DbPath == "test_db" &&
+//@     defaultConfig.Storage.MaxDirCount == 1000000 &&
+//@     len(defaultConfig.Storage.RootDirs) == 1 && defaultConfig.Storage.RootDirs[0] == "./testStorage" &&
+//@     defaultConfig.Storage.GCPeriod == 60000000000 &&
+//@     defaultConfig.WPool.NumWorkers == gomaxprocs() &&
+//@     defaultConfig.WPool.SendDuration == 1000000
+
+// Package initialisation establishes the documented defaults.
+//@ func init
+//@   ensures defaults: defaultsHold()
+
+//@ func (*Storage).Valid
+//@   requires nn:       s != nil
+//@   ensures  dbpath:   old(s.DbPath) == "" ==> result == fs_db.ErrEmptyDbPath
+//@   ensures  roots:    old(s.DbPath) != "" && len(old(s.RootDirs)) == 0 ==> result == fs_db.ErrEmptyRootDirs
+//@   ensures  ok:       old(s.DbPath) != "" && len(old(s.RootDirs)) != 0 ==> result == nil
+//@   ensures  clamp:    old(s.DbPath) != "" ==> s.MaxDirCount == ite(old(s.MaxDirCount) < 100, 100, old(s.MaxDirCount))
+//@   ensures  noclamp:  old(s.DbPath) == "" ==> s.MaxDirCount == old(s.MaxDirCount)
+//@   ensures  frame:    s.DbPath == old(s.DbPath) && s.RootDirs == old(s.RootDirs) && s.GCPeriod == old(s.GCPeriod) && memsame(string)
+
+//@ func (*Storage).ParseEnv
+//@   requires nn:        s != nil
+//@   modifies Storage.*, mem[string]
+//@   ensures  status:    result == nil <==> ((envOn("DIR_COUNT") ==> parseUintOk(envVal("DIR_COUNT"), 10, 64)) && (envOn("GC_PERIOD") ==> durOk(envVal("GC_PERIOD"))))
+//@   ensures  dbpath:    s.DbPath == ite(envOn("DB_PATH"), envVal("DB_PATH"), old(s.DbPath))
+//@   ensures  dircount:  result == nil ==> s.MaxDirCount == ite(envOn("DIR_COUNT"), parseUintVal(envVal("DIR_COUNT"), 10, 64), old(s.MaxDirCount))
+//@   ensures  rootsenv:  result == nil && envOn("ROOT_DIRS") ==> len(s.RootDirs) == splitLen(envVal("ROOT_DIRS"), ";") &&
+//@                          forall i int :: 0 <= i && i < len(s.RootDirs) ==> s.RootDirs[i] == splitAt(envVal("ROOT_DIRS"), ";", i)
+//@   ensures  rootskeep: !envOn("ROOT_DIRS") ==> s.RootDirs == old(s.RootDirs)
+//@   ensures  gc:        result == nil ==> s.GCPeriod == ite(envOn("GC_PERIOD"), durVal(envVal("GC_PERIOD")), old(s.GCPeriod))
+//@   ensures  strmem:    memsame(string)
+//@   ensures  others:    forall o *Storage :: o != s ==> o.DbPath == old(o.DbPath) && o.MaxDirCount == old(o.MaxDirCount) && o.RootDirs == old(o.RootDirs) && o.GCPeriod == old(o.GCPeriod)
+
+//@ func (*WPool).ParseEnv
+//@   requires nn:        wp != nil
+//@   modifies WPool.*
+//@   ensures  status:    result == nil <==> ((envOn("NUM_WORKERS") ==> atoiOk(envVal("NUM_WORKERS"))) && (envOn("SEND_DURATION") ==> durOk(envVal("SEND_DURATION"))))
+//@   ensures  workers:   result == nil ==> wp.NumWorkers == ite(envOn("NUM_WORKERS"), atoiVal(envVal("NUM_WORKERS")), old(wp.NumWorkers))
+//@   ensures  send:      result == nil ==> wp.SendDuration == ite(envOn("SEND_DURATION"), durVal(envVal("SEND_DURATION")), old(wp.SendDuration))
+//@   ensures  others:    forall o *WPool :: o != wp ==> o.NumWorkers == old(o.NumWorkers) && o.SendDuration == old(o.SendDuration)
+
+//@ pure func envAllOk() bool =
+//@     (envOn("PORT") ==> atoiOk(envVal("PORT"))) &&
+//@     (envOn("DIR_COUNT") ==> parseUintOk(envVal("DIR_COUNT"), 10, 64)) && (envOn("GC_PERIOD") ==> durOk(envVal("GC_PERIOD"))) &&
+//@     (envOn("NUM_WORKERS") ==> atoiOk(envVal("NUM_WORKERS"))) && (envOn("SEND_DURATION") ==> durOk(envVal("SEND_DURATION")))
+
+//@ func (*Config).ParseEnv
+//@   requires nn:        c != nil
+//@   modifies Config.*, mem[string]
+//@   ensures  status:    result == nil <==> envAllOk()
+//@   ensures  port:      result == nil ==> c.Port == ite(envOn("PORT"), atoiVal(envVal("PORT")), old(c.Port))
+//@   ensures  dbpath:    result == nil ==> c.Storage.DbPath == ite(envOn("DB_PATH"), envVal("DB_PATH"), old(c.Storage.DbPath))
+//@   ensures  dircount:  result == nil ==> c.Storage.MaxDirCount == ite(envOn("DIR_COUNT"), parseUintVal(envVal("DIR_COUNT"), 10, 64), old(c.Storage.MaxDirCount))
+//@   ensures  rootsenv:  result == nil && envOn("ROOT_DIRS") ==> len(c.Storage.RootDirs) == splitLen(envVal("ROOT_DIRS"), ";") &&
+//@                          forall i int :: 0 <= i && i < len(c.Storage.RootDirs) ==> c.Storage.RootDirs[i] == splitAt(envVal("ROOT_DIRS"), ";", i)
+//@   ensures  rootskeep: !envOn("ROOT_DIRS") ==> c.Storage.RootDirs == old(c.Storage.RootDirs)
+//@   ensures  gc:        result == nil ==> c.Storage.GCPeriod == ite(envOn("GC_PERIOD"), durVal(envVal("GC_PERIOD")), old(c.Storage.GCPeriod))
+//@   ensures  workers:   result == nil ==> c.WPool.NumWorkers == ite(envOn("NUM_WORKERS"), atoiVal(envVal("NUM_WORKERS")), old(c.WPool.NumWorkers))
+//@   ensures  send:      result == nil ==> c.WPool.SendDuration == ite(envOn("SEND_DURATION"), durVal(envVal("SEND_DURATION")), old(c.WPool.SendDuration))
+//@   ensures  strmem:    memsame(string)
+//@   ensures  others:    forall o *Config :: o != c ==> o.Port == old(o.Port) && o.Storage.DbPath == old(o.Storage.DbPath) &&
+//@                          o.Storage.MaxDirCount == old(o.Storage.MaxDirCount) && o.Storage.RootDirs == old(o.Storage.RootDirs) &&
+//@                          o.Storage.GCPeriod == old(o.Storage.GCPeriod) && o.WPool.NumWorkers == old(o.WPool.NumWorkers) && o.WPool.SendDuration == old(o.WPool.SendDuration)
+
+// fileHas: the setting is present in the configuration file that was given.
+//@ pure func fileHas(confFile string, path string) bool = confFile != "" && yamlHas(confFile, path)
+
+//@ func ParseConfig
+//@   requires defaults:  defaultsHold()
+//@   ensures  status:    result1 == nil <==> ((confFile != "" ==> openOk(confFile) && yamlOk(confFile)) && envAllOk())
+//@   ensures  zero:      result1 != nil ==> result0.Port == 0 && result0.Storage.DbPath == "" && result0.Storage.MaxDirCount == 0 &&
+//@                          len(result0.Storage.RootDirs) == 0 && result0.Storage.GCPeriod == 0 && result0.WPool.NumWorkers == 0 && result0.WPool.SendDuration == 0
+//@   ensures  port:      result1 == nil ==> result0.Port == ite(envOn("PORT"), atoiVal(envVal("PORT")), ite(fileHas(confFile, "port"), yamlInt(confFile, "port"), 8888))
+//@   ensures  dbpath:    result1 == nil ==> result0.Storage.DbPath == ite(envOn("DB_PATH"), envVal("DB_PATH"), ite(fileHas(confFile, "storage.dbPath"), yamlStr(confFile, "storage.dbPath"), "test_db"))
+//@   ensures  dircount:  result1 == nil ==> result0.Storage.MaxDirCount == ite(envOn("DIR_COUNT"), parseUintVal(envVal("DIR_COUNT"), 10, 64), ite(fileHas(confFile, "storage.maxDirCount"), yamlInt(confFile, "storage.maxDirCount"), 1000000))
+//@   ensures  gc:        result1 == nil ==> result0.Storage.GCPeriod == ite(envOn("GC_PERIOD"), durVal(envVal("GC_PERIOD")), ite(fileHas(confFile, "storage.gcPeriod"), yamlInt(confFile, "storage.gcPeriod"), 60000000000))
+//@   ensures  workers:   result1 == nil ==> result0.WPool.NumWorkers == ite(envOn("NUM_WORKERS"), atoiVal(envVal("NUM_WORKERS")), ite(fileHas(confFile, "wPool.numWorkers"), yamlInt(confFile, "wPool.numWorkers"), gomaxprocs()))
+//@   ensures  send:      result1 == nil ==> result0.WPool.SendDuration == ite(envOn("SEND_DURATION"), durVal(envVal("SEND_DURATION")), ite(fileHas(confFile, "wPool.sendDuration"), yamlInt(confFile, "wPool.sendDuration"), 1000000))
+//@   ensures  rootsenv:  result1 == nil && envOn("ROOT_DIRS") ==> len(result0.Storage.RootDirs) == splitLen(envVal("ROOT_DIRS"), ";") &&
+//@                          forall i int :: 0 <= i && i < len(result0.Storage.RootDirs) ==> result0.Storage.RootDirs[i] == splitAt(envVal("ROOT_DIRS"), ";", i)
+//@   ensures  rootsfile: result1 == nil && !envOn("ROOT_DIRS") && fileHas(confFile, "storage.rootDirs") ==> len(result0.Storage.RootDirs) == yamlListLen(confFile, "storage.rootDirs") &&
+//@                          forall i int :: 0 <= i && i < len(result0.Storage.RootDirs) ==> result0.Storage.RootDirs[i] == yamlListAt(confFile, "storage.rootDirs", i)
+//@   ensures  rootsdef:  result1 == nil && !envOn("ROOT_DIRS") && !fileHas(confFile, "storage.rootDirs") ==> len(result0.Storage.RootDirs) == 1 && result0.Storage.RootDirs[0] == "./testStorage"
+//@   ensures  keepdef:   defaultsHold()
